@@ -893,6 +893,18 @@ class SymDF:
             cols = kwargs.get("columns")
             if cols is None and args and kwargs.get("axis") == 1:
                 cols = args[0]
+            if cols is None and len(args) == 1 and isinstance(args[0], IndexOf) and "axis" not in kwargs and "index" not in kwargs:
+                sub = args[0].owner
+                if not (isinstance(sub, SymDF) and sub.uni is self.uni and sub.label is self.label):
+                    raise Unsupported("DataFrame.drop(labels) with the index of a frame over other rows / other labels")
+                _assume("pandas DataFrame.drop(sub.index) for a row selection `sub` of the same frame with unique labels (a fresh RangeIndex): removes exactly the rows of `sub`; contents of the other rows unchanged")
+                pres, sp = self.present, sub.present
+                newp = lambda r: z_and(pres(r), z_not(sp(r)))
+                if inplace:
+                    self.present = newp
+                    self.inplace_row_changes += 1
+                    return None
+                return SymDF(self.uni, self.cols, newp, self.label, self.name + "_dropr", self.order)
             if cols is None:
                 raise Unsupported("DataFrame.drop of rows")
             if "axis" in kwargs and "columns" in kwargs:
